@@ -46,7 +46,8 @@ type Exec struct {
 	prog           *ssa.Program
 	tc             *TermCtx
 	sol            *Solver
-	xsol           *Solver // optional second solver for assertion obligations (thorough tier)
+	xsolSpent      time.Duration // wall time given to the second solver in this harness (capped)
+	xsol           *Solver       // optional second solver for assertion obligations (thorough tier)
 	opts           Options
 	stats          Stats
 	nextObj        int
